@@ -164,3 +164,15 @@ Example C06_example_keepws :
 Proof.
   eexists. eexists. split; [vm_compute; reflexivity|]. split; vm_compute; auto.
 Qed.
+
+(* textual public id with the string table in use: `00 index`, the index is the offset of a table entry that holds the
+   language's XML public id, and the table written still has the declared length *)
+Theorem C06_header_textual_public_id_with_strtbl : forall e st p,
+  bl_pub_num (e_lang e) = 1 -> e_anonymous e = false -> bl_pub_text (e_lang e) = Some p -> e_use_strtbl e = true ->
+  exists idx tbl tlen,
+    strtbl_add (strtbl st) (strtbl_len st) p None = (idx, tbl, tlen) /\
+    fill_header e st = [u8 (e_version e)] ++ ([0] ++ mb_write idx) ++ mb_write 106 ++ mb_write tlen ++ strtbl_construct tbl /\
+    (tinv st -> tbl_size tbl < 4294967296 ->
+       (offsets_from 0 tbl /\ tlen = len (strtbl_construct tbl)) /\ exists x, In x tbl /\ s_off x = idx /\ s_str x = p).
+Proof. exact fill_header_textual_strtbl. Qed.
+Print Assumptions C06_header_textual_public_id_with_strtbl.
